@@ -306,7 +306,10 @@ def run(ctx):
             c = base["coordinates"]
             op = "none"
             for _ in range(rng.choice([1, 1, 1, 2])):
-                op2, c = mutate(rng, tag, c)
+                try:
+                    op2, c = mutate(rng, tag, c)
+                except (TypeError, IndexError, KeyError):
+                    op2 = "none"  # second operator not applicable to the already mutated structure
                 op = op2 if op == "none" else f"{op}+{op2}"
             ctx.case((tag, op, "valid" if ref_valid(tag, c) else "invalid"), {"type": tag, "coordinates": c}, nontrivial=op != "none")
             judge(ctx, tag, c)
